@@ -46,6 +46,7 @@ Verdict(ev) ==
      [] ev.e = "sq_size" -> IF v # Len(q) THEN Bad("queue_size") ELSE Good
      [] ev.e \in {"sl_unlocked", "ev_wenter", "ev_senter", "ev_sleft"} -> Good    \* scheduling points, no state
      [] ev.e = "Ret" -> Good
+     [] ev.e = "Sched" -> Good        \* controlled executions: how far the TLC-generated schedule was followed (coverage information, no state)
      [] ev.e = "Hung" -> Bad("lost_wakeup_or_deadlock")
      [] ev.e = "End" -> IF \E x \in Threads : woken[x] # NONE /\ resumed[x] = -1 THEN Bad("lost_wakeup_or_deadlock")
                         ELSE IF owner # NONE THEN Bad("lock_not_released")
